@@ -326,6 +326,10 @@ func (en *DefaultEngine) runFirst(ctx context.Context) (bool, error) {
 	if en.first == nil {
 		return true, nil
 	}
+	if en.st.MatchFlag(state.FLAG_TERMINATE, true) {
+		logg.DebugCtxf(ctx, "session is blocked, pre-VM check not run")
+		return true, nil
+	}
 	logg.DebugCtxf(ctx, "start pre-VM check")
 	en.ca.Push()
 	rs := resource.NewMenuResource()
